@@ -99,27 +99,22 @@ def rule_commands_on_clone(chk, rid):
     a0 = call.args[0] if call.args and not isinstance(call.args[0], ast.Starred) else None
     ok = False
     why = "first argument of the command call not recognised"
-    if isinstance(a0, ast.Name):
-        ds = cfg.reaching_defs(a0.id, cfg.node_of(call))
-        vals = [assigned_value(cfg, d, a0.id) for d in ds if d != cfg.entry]
-        why = f"`{a0.id}` = {[U(v) for v in vals]}"
-        def cloned(v):
-            if isinstance(v, ast.IfExp):
-                # `state if is_volatile else state.clone()` (either arm order)
-                arms = [v.body, v.orelse]
-                cl = [x for x in arms if isinstance(x, ast.Call) and call_tail(x) == "clone" and call_recv(x) == ea.statevar]
-                raw = [x for x in arms if U(x) == ea.statevar]
-                if len(cl) == 1 and len(raw) == 1:
-                    volatile_true_arm = v.body if "volatile" in U(v.test) and not isinstance(v.test, ast.UnaryOp) else v.orelse
-                    return volatile_true_arm is raw[0]
-                return len(cl) == 2
-            return isinstance(v, ast.Call) and call_tail(v) == "clone" and call_recv(v) == ea.statevar
-        ok = bool(vals) and all(v is not None and cloned(v) for v in vals) and cfg.entry not in ds
+    if isinstance(a0, (ast.Name, ast.IfExp)):
+        from ..lib import conditional_values
+        alts = conditional_values(cfg, a0, cfg.node_of(call))
+        why = f"`{U(a0)}` = {sorted({U(v) for v, _ in alts})}"
+        def fine(v, facts):
+            if isinstance(v, ast.Call) and call_tail(v) == "clone" and call_recv(v) == ea.statevar:
+                return True
+            # the raw input may be handed over only where it is known to be volatile
+            return U(v) == ea.statevar and any("volatile" in t and p is True for t, p in facts)
+        ok = bool(alts) and all(fine(v, f) for v, f in alts) and not (isinstance(a0, ast.Name) and cfg.entry in cfg.reaching_defs(a0.id, cfg.node_of(call)))
         # the clone must be taken from the *input* state (before next_state rebinding)
-        for d in ds:
-            if d != cfg.entry and cfg.reaching_defs(ea.statevar, d) != [cfg.entry]:
-                ok = False
-                why += " (taken after the input state was rebound)"
+        if isinstance(a0, ast.Name):
+            for d in cfg.reaching_defs(a0.id, cfg.node_of(call)):
+                if d != cfg.entry and cfg.reaching_defs(ea.statevar, d) != [cfg.entry]:
+                    ok = False
+                    why += " (taken after the input state was rebound)"
     elif isinstance(a0, ast.Call) and call_tail(a0) == "clone":
         ok = call_recv(a0) == ea.statevar
     chk.ob(rid, ea.C, ok, "command receives a clone of a non-volatile input: " + why, call, ea.mod, key="clone-before-command")
